@@ -371,6 +371,17 @@ func (c *Ctx) c14drive(f c14file) {
 				c.Emit("c14."+f.format+".cut", pre+c15hex(f.model[:mk]), r.class)
 			}
 		}
+		if isOk && f.onePoint && k < len(f.data) && c14tokenBoundary(f.data, k) {
+			// one-point PTS decision: fields present = tokens present, the others absent (never zeros)
+			lines := strings.Split(strings.ReplaceAll(string(prefix), "\r", ""), "\n")
+			if len(lines) >= 2 {
+				nt := len(strings.Fields(lines[1]))
+				if full.class != r.class || nt < len(strings.Fields(strings.Split(strings.ReplaceAll(string(f.data), "\r", ""), "\n")[1])) {
+					c.Note("c14.pts.one-point-partial-record")
+				}
+				c.Emit("c14.holds.pts_one_point", fmt.Sprintf("%d %s", nt, r.class), "true")
+			}
+		}
 		if isOk && !f.streamed && k < len(f.data) && mk >= 0 && (!f.ascii || c14tokenBoundary(f.data, k)) {
 			// ok on a strict prefix: only legitimate where the model (= the theorems) also says ok with the same counts
 			c.Note("c14.cut.ok-on-strict-prefix." + f.format)
